@@ -464,8 +464,8 @@ def _listing_pages(ctx, rep):
     from datashard.storage_backend import LocalStorageBackend
     base = scratch_dir("c20l-")
     try:
-        for prefix in ("tbl", "a/b", "data", "metadata"):
-            loc = LocalStorageBackend(os.path.join(base, prefix.replace("/", "_")))
+        for prefix in ("tbl", "a/b", "data", "metadata", ""):      # "" = a table at the bucket root (no key prefix)
+            loc = LocalStorageBackend(os.path.join(base, prefix.replace("/", "_") or "bucket_root"))
             fake = fakes3.FakeS3()
             s3 = fakes3.make_backend(prefix, True, fake)
             for n in range(10):
